@@ -6,6 +6,9 @@
 #include <set>
 #include <string>
 #include <vector>
+#include "common/rpc/RpcController.h"
+#include "common/rpc/RpcSession.h"
+#include "ola/Callback.h"
 #include "ola/Clock.h"
 #include "ola/DmxBuffer.h"
 #include "ola/Logging.h"
@@ -14,7 +17,9 @@
 #include "olad/Device.h"
 #include "olad/PluginAdaptor.h"
 #include "olad/Port.h"
+#define private public
 #include "olad/PortBroker.h"
+#undef private
 #include "olad/Preferences.h"
 #include "olad/Universe.h"
 // m_deletion_candidates is private; it is dumped as an internal (non-property) observable
@@ -23,6 +28,8 @@
 #undef private
 #include "olad/plugin_api/PortManager.h"
 #include "olad/plugin_api/TestCommon.h"
+#include "olad/plugin_api/DeviceManager.h"
+#include "olad/OlaServerServiceImpl.h"
 #include "vh.h"
 
 using ola::InputPort;
@@ -37,8 +44,8 @@ namespace {
 // a device with configurable patching policies
 class CfgDevice : public ola::Device {
  public:
-  CfgDevice(const string &name, bool loop, bool multi)
-      : Device(NULL, name), m_loop(loop), m_multi(multi) {}
+  CfgDevice(ola::AbstractPlugin *owner, const string &name, bool loop, bool multi)
+      : Device(owner, name), m_loop(loop), m_multi(multi) {}
   string DeviceId() const { return Name(); }
   bool AllowLooping() const { return m_loop; }
   bool AllowMultiPortPatching() const { return m_multi; }
@@ -46,15 +53,23 @@ class CfgDevice : public ola::Device {
   bool m_loop, m_multi;
 };
 
-// the plugin veto: PreSetUniverse refuses the listed universe numbers (like the E1.31, SandNet and
-// Pathport ports do); unpatching (new_universe == NULL) is always accepted.
+// the plugin veto.  PreSetUniverse refuses the listed universe numbers (like the E1.31, SandNet and
+// Pathport ports do) and, optionally, decides on the patching of a sibling port of the same device
+// (like the ShowNet ports do):
+//   'B' k: refuse every change (also an un-patch) while port k is patched
+//   'b' k: refuse a new universe while port k is patched
+//   'e' k: refuse universe n while port k is patched to universe n
+//   'u' k: refuse an un-patch while port k is patched
+struct World;
 struct Veto {
   set<unsigned int> ids;
-  bool Refuses(Universe *new_universe) const {
-    return new_universe && ids.count(new_universe->UniverseId());
-  }
+  char rule;
+  unsigned int buddy;
+  unsigned int dev;
+  World *world;
+  Veto() : rule('-'), buddy(0), dev(0), world(NULL) {}
+  bool Refuses(Universe *new_universe) const;
 };
-
 class VInput : public TestMockInputPort {
  public:
   VInput(ola::AbstractDevice *d, unsigned int id, const ola::PluginAdaptor *pa, const Veto &v)
@@ -120,22 +135,33 @@ struct World {
   ola::TimeStamp now;
   MockSelectServer ss;
   ola::PluginAdaptor adaptor;
+  TestMockPlugin plugin;
   LogPreferences prefs;
+  ola::MemoryPreferencesFactory prefs_factory;
   ola::UniverseStore store;
   ola::PortBroker broker;
   ola::PortManager pm;
+  ola::DeviceManager *dm;          // created after the port preferences were preloaded
+  ola::OlaServerServiceImpl service;
   vector<CfgDevice*> devs;
   vector<PortRec> ports;
+  vector<const ola::Port*> orig;   // every port ever created (to name stale broker keys)
+  vector<string> port_ids;         // UniqueId of every port
   std::map<unsigned int, ola::Client*> clients;
 
   World() : ss(&now), adaptor(NULL, &ss, NULL, NULL, NULL, NULL, NULL),
-            store(&prefs, NULL), pm(&store, &broker) {
+            plugin(&adaptor, ola::OLA_PLUGIN_ARTNET),
+            store(&prefs, NULL), pm(&store, &broker), dm(NULL),
+            service(&store, NULL, NULL, &pm, NULL, &now, NULL) {
     ola::Clock clock;
     clock.CurrentMonotonicTime(&now);
   }
+  ola::Preferences *port_prefs() { return prefs_factory.NewPreference("port"); }
   ~World() {
     // unpatch what is left (not part of the compared history), then tear down
+    if (dm) dm->UnregisterAllDevices();
     for (size_t i = 0; i < devs.size(); i++) { devs[i]->Stop(); }
+    delete dm;
     for (size_t i = 0; i < ports.size(); i++) {
       if (ports[i].dev >= devs.size()) {       // orphan ports are owned by us
         if (ports[i].in) delete ports[i].in;
@@ -210,6 +236,31 @@ struct World {
     return s;
   }
 
+  // PortBroker::m_ports; "x<i>" = key of a port that has been deleted
+  string broker_s() {
+    vector<string> v;
+    for (size_t i = 0; i < orig.size(); i++) {
+      std::pair<string, const ola::Port*> key(port_ids[i], orig[i]);
+      if (broker.m_ports.count(key))
+        v.push_back((ports[i].port() ? "" : "x") + vh::str(i));
+    }
+    return join(v, ".");
+  }
+
+  // the port preferences: patching / priority value / priority mode per port
+  string prefs_s() {
+    ola::Preferences *pp = port_prefs();
+    string s;
+    for (size_t i = 0; i < orig.size(); i++) {
+      if (i) s += ",";
+      string a = pp->GetValue(port_ids[i]);
+      string b = pp->GetValue(port_ids[i] + "_priority_value");
+      string c = pp->GetValue(port_ids[i] + "_priority_mode");
+      s += (a.empty() ? "-" : a) + "/" + (b.empty() ? "-" : b) + "/" + (c.empty() ? "-" : c);
+    }
+    return s;
+  }
+
   string cands() {
     vector<unsigned int> v;
     for (set<Universe*>::iterator it = store.m_deletion_candidates.begin();
@@ -220,6 +271,24 @@ struct World {
   }
 };
 
+bool Veto::Refuses(Universe *new_universe) const {
+  if (new_universe && ids.count(new_universe->UniverseId())) return true;
+  if (rule == '-' || !world || buddy >= world->ports.size()) return false;
+  const PortRec &b = world->ports[buddy];
+  if (b.dev != dev || dev >= world->devs.size() || !b.port()) return false;   // not a sibling (any more)
+  Universe *bu = b.port()->GetUniverse();
+  if (!bu) return false;
+  switch (rule) {
+    case 'B': return true;
+    case 'b': return new_universe != NULL;
+    case 'e': return new_universe && bu->UniverseId() == new_universe->UniverseId();
+    case 'u': return new_universe == NULL;
+  }
+  return false;
+}
+
+void ack_done() {}
+
 string handle(const string &payload) {
   vector<string> f = vh::split(payload);
   if (f.size() != 3) return "bad-payload";
@@ -229,12 +298,13 @@ string handle(const string &payload) {
     vector<string> ds = vh::split(f[0], ',');
     for (size_t i = 0; i < ds.size(); i++) {
       unsigned int bits = vh::num(ds[i]);
-      CfgDevice *d = new CfgDevice("dev" + vh::str(i), bits & 1, bits & 2);
+      CfgDevice *d = new CfgDevice(&w.plugin, "dev" + vh::str(i), bits & 1, bits & 2);
       d->Start();
       w.devs.push_back(d);
     }
   }
-  // ports: dev:dir:cap:veto
+  // ports: dev:dir:cap:veto[:rule:pref_universe:pref_priority:pref_mode]
+  vector<vector<string> > preload;
   if (f[1] != "-") {
     vector<string> ps = vh::split(f[1], ',');
     for (size_t i = 0; i < ps.size(); i++) {
@@ -248,6 +318,15 @@ string handle(const string &payload) {
         vector<string> vs = vh::split(a[3], '.');
         for (size_t j = 0; j < vs.size(); j++) v.ids.insert(vh::num(vs[j]));
       }
+      v.world = &w;
+      v.dev = r.dev;
+      if (a.size() > 4 && a[4] != "-") {
+        v.rule = a[4][0];
+        v.buddy = vh::num(a[4].substr(1));
+      }
+      vector<string> pl(3, "-");
+      for (size_t j = 0; j < 3; j++) if (a.size() > 5 + j) pl[j] = a[5 + j];
+      preload.push_back(pl);
       ola::AbstractDevice *parent = r.dev < w.devs.size() ? w.devs[r.dev] : NULL;
       r.in = NULL; r.out = NULL;
       if (r.input) {
@@ -260,8 +339,18 @@ string handle(const string &payload) {
         if (parent) w.devs[r.dev]->AddPort(r.out);
       }
       w.ports.push_back(r);
+      w.orig.push_back(r.port());
+      w.port_ids.push_back(r.port()->UniqueId());
     }
   }
+  // preloaded port preferences, then the DeviceManager (it loads them in its constructor)
+  for (size_t i = 0; i < preload.size(); i++) {
+    static const char *suffix[] = {"", "_priority_value", "_priority_mode"};
+    for (size_t j = 0; j < 3; j++)
+      if (preload[i][j] != "-" && !w.port_ids[i].empty())
+        w.port_prefs()->SetValue(w.port_ids[i] + suffix[j], preload[i][j]);
+  }
+  w.dm = new ola::DeviceManager(&w.prefs_factory, &w.pm);
   string out = "d=" + w.dump();
   vector<string> ops;
   if (f[2] != "-") ops = vh::split(f[2], ',');
@@ -321,11 +410,32 @@ string handle(const string &payload) {
         for (size_t i = 0; i < w.ports.size(); i++)
           if (w.ports[i].dev == d) { w.ports[i].in = NULL; w.ports[i].out = NULL; }
       }
+    } else if (o == "R") {
+      unsigned int d = vh::num(a[1]);
+      if (d < w.devs.size()) r = w.dm->RegisterDevice(w.devs[d]) ? "1" : "0";
+    } else if (o == "N") {
+      unsigned int d = vh::num(a[1]);
+      if (d < w.devs.size())
+        r = w.dm->UnregisterDevice(static_cast<const ola::AbstractDevice*>(w.devs[d])) ? "1" : "0";
+    } else if (o == "NA") {
+      w.dm->UnregisterAllDevices();
+    } else if (o == "RA" || o == "RU") {
+      // the real OlaServerServiceImpl::RegisterForDmx on behalf of client a[2]
+      ola::rpc::RpcSession session(NULL);
+      session.SetData(w.client(vh::num(a[2])));
+      ola::rpc::RpcController controller(&session);
+      ola::proto::RegisterDmxRequest request;
+      ola::proto::Ack response;
+      request.set_universe(vh::num(a[1]));
+      request.set_action(o == "RA" ? ola::proto::REGISTER : ola::proto::UNREGISTER);
+      w.service.RegisterForDmx(&controller, &request, &response, ola::NewSingleCallback(&ack_done));
+      r = controller.Failed() ? "failed" : "-";
     } else {
       return "bad-op";
     }
     out += ";r" + vh::str(k) + "=" + r + ";d" + vh::str(k) + "=" + w.dump() +
-           ";c" + vh::str(k) + "=" + w.cands();
+           ";c" + vh::str(k) + "=" + w.cands() + ";b" + vh::str(k) + "=" + w.broker_s() +
+           ";f" + vh::str(k) + "=" + w.prefs_s();
   }
   return out;
 }
